@@ -79,6 +79,9 @@ def metamorphic(ctx, n_cases):
         md = md_plug if plug else md_core
         label = ctx.rng.choice(LABELS)
         url = ctx.rng.choice(URLS); title = ctx.rng.choice(TITLES)
+        if ctx.rng.random() < 0.15:
+            # titles that span lines, with escapes and a backslash at a line end (only where the definition is not inside a container: the second line carries no marker)
+            title = ctx.rng.choice([' "alpha\nbeta"', ' "alpha line\\\nbeta line"', " 'a\\\nb'", ' "x \\" y"', ' "tail\\\\"', " 'it\\'s'", ' "a\n  b\n c"', ' "\\\nx"'])
         def_line = "[%s]: %s%s" % (variant(ctx.rng, label).replace("\n", " "), url, title)
         uses = []
         for _ in range(ctx.rng.randint(1, 3)):
@@ -95,13 +98,14 @@ def metamorphic(ctx, n_cases):
             body += ["para " + u if not u.startswith((">", "-", "#", "|", "term", "note here")) else u, ""]
         body += ["other [undefined label] and [zz][yy] stay"]
         outs = {}
-        for w in PLACES:
+        places = [w for w in PLACES if w in ("top", "bottom", "middle")] if "\n" in def_line else PLACES
+        for w in places:
             doc = place(ctx.rng, body, def_line, w)
             try:
                 outs[w] = md(doc)
             except Exception as e:
                 outs[w] = "EXC " + type(e).__name__
-        n += len(PLACES)
+        n += len(places)
         # compare the rendered use sites: strip the structural wrapper the placement itself adds by comparing link targets
         import re
         def sites(h):
@@ -120,7 +124,7 @@ def metamorphic(ctx, n_cases):
             ctx.fail("use-unresolved:%s" % ("plugins" if plug else "core"), "the definition %r is valid (some uses resolve) but %d of %d use sites do not resolve" % (def_line, len(uses) - len(ref[0]), len(uses)),
                      {"def": def_line, "body": body, "doc": place(ctx.rng, body, def_line, "top"), "out": outs["top"]})
             continue
-        for w in PLACES[1:]:
+        for w in places[1:]:
             if sites(outs[w]) != ref:
                 ctx.fail("placement:" + w, "a definition written at '%s' resolves differently than at the top: %r" % (w, def_line),
                          {"def": def_line, "body": body, "place": w, "top": outs["top"], "other": outs[w]})
